@@ -157,6 +157,47 @@ def run_atoms(names_list: List[Tuple[Tuple[str, ...], str]], t: Tally, opts: Opt
     return out
 
 
+def run_multi(t: Tally) -> List[Violation]:
+    files = dict(AT.MULTI_FILES)
+    res = plugin.compile_protos(files, tag="c03m")
+    t.inc("programs")
+    out: List[Violation] = []
+    try:
+        if res.rc != 0:
+            if "protoc-gen" not in res.stderr and "Traceback" not in res.stderr:
+                raise HarnessError("multi-file program is not valid proto3: " + res.stderr[-300:])
+            return [Violation(["plugin", "plugin-failed", "multi-file-program"], res.stderr[-400:], {"kind": "multi"})]
+        mt = Matcher(res)
+        probs = mt.check_files(list(files))
+        t.inc("compared", mt.compared)
+        seen = set()
+        for oracle, where, detail in probs:
+            if oracle not in seen:
+                seen.add(oracle)
+                out.append(Violation(["plugin", oracle, "multi-file-program"], f"{where}: {detail}", {"kind": "multi"}))
+        if not probs:
+            try:
+                pm, rm = mt.module("p"), mt.module("p.r")
+                for svc, n in (("S1", 1), ("S2", 4)):
+                    mp = getattr(pm, svc + "Base")().__mapping__()
+                    t.inc("compared", n)
+                    if len(mp) != n or any(h.request_type is not pm.M2 for h in mp.values()):
+                        out.append(Violation(["plugin", "service-mapping", "multi-file-program"],
+                                             f"{svc}: {sorted(mp)}", {"kind": "multi"}))
+                h = rm.S3Base().__mapping__()["/p.r.S3/Up"]
+                if h.request_type is not pm.M2 or h.reply_type is not pm.M1:
+                    out.append(Violation(["plugin", "service-mapping", "multi-file-program"], "S3 types", {"kind": "multi"}))
+                r = rm.R(up=pm.M2(a=1), opt_up=pm.M1(e=pm.E1(1)), deep=pm.M1In(x=pm.E2(-1)), oe=pm.E2(0), em={3: pm.E1(1)})
+                if rm.R().parse(bytes(r)) != r or rm.R().from_dict(r.to_dict()) != r:
+                    out.append(Violation(["plugin", "generated-unusable", "multi-file-program"], "R does not round-trip", {"kind": "multi"}))
+            except Exception as e:
+                out.append(Violation(["plugin", "generated-unusable", "multi-file-program"],
+                                     f"{type(e).__name__}: {e}"[:300], {"kind": "multi"}))
+    finally:
+        res.cleanup()
+    return out
+
+
 CORPUS_XFAIL = {"example"}  # the README example, "not a test" upstream
 
 
@@ -286,6 +327,7 @@ def plan(tier: str):
         if os.path.isdir(os.path.join(REPO, "tests", "inputs", d)) and d not in CORPUS_XFAIL:
             items.append(("corpus", d))
     items.append(("bundled", None))
+    items.append(("multi", None))
     return items
 
 
@@ -301,6 +343,8 @@ def _shard(shard: int, nshards: int, tier: str) -> Tally:
                 vs = run_atoms(arg, t)
             elif kind == "corpus":
                 vs = run_corpus(arg, t)
+            elif kind == "multi":
+                vs = run_multi(t)
             else:
                 vs = check_bundled(t)
         except HarnessError:
@@ -367,4 +411,6 @@ def replay(case: dict) -> List[Violation]:
         return run_atoms([(tuple(case["atoms"]), case["package"])], t)
     if case["kind"] == "corpus":
         return run_corpus(case["dir"], t)
+    if case["kind"] == "multi":
+        return run_multi(t)
     return check_bundled(t)
